@@ -5,12 +5,12 @@ import EupsModel.Model.Setup
 Request
 ```
 {"m":"c01","op":"setup"|"unsetup","fuel":N,
- "db":{"decls":[{"name","ver","dir","table":[ACT…]}…],"tags":[[tag,name,ver]…]},
- "env":{"recs":{name:ver},"dirs":{name:str},"paths":{var:[str…]},"vars":{var:str}},
- "req":{"name","ver":VERREQ|null,"keep":bool,"max_depth":int,"inexact":bool,"tags":[str…]}}
+ "db":{"decls":[{"name","ver","stack":k,"dir","table":[ACT…]}…],"tags":[[tag,name,ver,k]…]},
+ "env":{"recs":{name:[ver,k]},"dirs":{name:str},"paths":{var:[str…]},"vars":{var:str}},
+ "req":{"name","ver":VERREQ|null,"keep":bool,"max_depth":int,"inexact":bool,"tags":[str…],"path":[k…]}}
 ACT    = {"g":"always"|"exact"|"inexact","a":"prepend","var","vals":[{"own":bool,"val"}…],"append":bool}
        | {"g",…,"a":"set","var","own":bool,"val"} | {"g",…,"a":"alias","key","val"}
-       | {"g",…,"a":"dep","name","opt":bool,"just":bool,"ver":VERREQ|null,"vexpr":EXPR|null,"tags":[str…]}
+       | {"g",…,"a":"dep","name","opt":bool,"just":bool,"ver":VERREQ|null,"vexpr":EXPR|null,"tags":[str…],"keep":bool}
 VERREQ = {"v":version} | {"e":EXPR}        EXPR = [[op,version]…]   (alternatives joined by ||)
 ```
 Strings of the environment are tagged here (`own (name,version) rel` when the string is the directory of a
@@ -67,18 +67,18 @@ def actOf (j : Json) : Except String (Guard × Act) := do
     let vexpr ← match optField j "vexpr" with
       | some v => pure (some (← exprOf v))
       | none => pure none
-    pure (g, .dep (← jstr j "name") (← jbool j "opt") (← jbool j "just") ver vexpr (← jstrs j "tags"))
+    pure (g, .dep (← jstr j "name") (← jbool j "opt") (← jbool j "just") ver vexpr (← jstrs j "tags") (← jbool j "keep"))
   | _ => throw s!"unknown action {a}"
 
 def declOf (j : Json) : Except String Decl := do
-  pure ⟨← jstr j "name", ← jstr j "ver", ← jstr j "dir", ← (← jarr j "table").mapM actOf⟩
+  pure ⟨← jstr j "name", (← jstr j "ver", ← jnat j "stack"), ← jstr j "dir", ← (← jarr j "table").mapM actOf⟩
 
 def dbOf (j : Json) : Except String Db := do
   let decls ← (← jarr j "decls").mapM declOf
   let tags ← (← jarr j "tags").mapM fun t => do
     let a ← t.getArr?
-    if a.size != 3 then throw "bad tag entry"
-    pure (Str.ofString (← a[0]!.getStr?), Str.ofString (← a[1]!.getStr?), Str.ofString (← a[2]!.getStr?))
+    if a.size != 4 then throw "bad tag entry"
+    pure (Str.ofString (← a[0]!.getStr?), Str.ofString (← a[1]!.getStr?), (Str.ofString (← a[2]!.getStr?), ← a[3]!.getNat?))
   -- the tagging of elements needs distinct, non-nested directories and unique (name, version) pairs
   for d in decls do
     for d' in decls do
@@ -103,7 +103,10 @@ def objList (j : Json) (k : String) : Except String (List (String × Json)) := d
   pure (← (← j.getObjVal? k).getObj?).toList
 
 def envOf (db : Db) (j : Json) : Except String Setup.Env := do
-  let recs ← (← objList j "recs").mapM fun (k, v) => do pure (Str.ofString k, Str.ofString (← v.getStr?))
+  let recs ← (← objList j "recs").mapM fun (k, v) => do
+    let a ← v.getArr?
+    if a.size != 2 then throw "bad record"
+    pure (Str.ofString k, ((Str.ofString (← a[0]!.getStr?), ← a[1]!.getNat?) : Ver))
   let dirs ← (← objList j "dirs").mapM fun (k, v) => do
     pure (Str.ofString k, tagElem db (Str.ofString (← v.getStr?)))
   let paths ← (← objList j "paths").mapM fun (k, v) => do
@@ -118,7 +121,7 @@ def mkObjS {β : Type} (l : List (Str × β)) (f : β → Json) : Json :=
 
 def envToJson (db : Db) (e : Setup.Env) : Json :=
   let el := fun x => ofStr (renderElem db x)
-  Json.mkObj [("recs", mkObjS e.recs ofStr), ("dirs", mkObjS e.dirs el),
+  Json.mkObj [("recs", mkObjS e.recs (fun (v : Ver) => Json.arr #[ofStr v.1, Json.num v.2])), ("dirs", mkObjS e.dirs el),
               ("paths", mkObjS e.paths (fun l => Json.arr (l.map el).toArray)), ("vars", mkObjS e.vars el)]
 
 def reqOf (j : Json) : Except String Request := do
@@ -127,7 +130,7 @@ def reqOf (j : Json) : Except String Request := do
     | none => pure none
   let md ← jint j "max_depth"
   pure ⟨← jstr j "name", ver, ← jbool j "keep", if md < 0 then none else some md.toNat,
-        ← jbool j "inexact", ← jstrs j "tags"⟩
+        ← jbool j "inexact", ← jstrs j "tags", ← (← jarr j "path").mapM fun x => x.getNat?⟩
 
 def vroToJson (v : VroEnt) : Json :=
   match v with
@@ -138,7 +141,7 @@ def vroToJson (v : VroEnt) : Json :=
 def cmdToJson (db : Db) (c : Cmd) : Json :=
   let el := fun x => ofStr (renderElem db x)
   match c with
-  | .exportRec n v => Json.arr #["exportRec", ofStr n, ofStr v]
+  | .exportRec n v => Json.arr #["exportRec", ofStr n, ofStr v.1, Json.num v.2]
   | .exportDir n x => Json.arr #["exportDir", ofStr n, el x]
   | .exportPath var l => Json.arr #["exportPath", ofStr var, Json.arr (l.map el).toArray]
   | .exportVar var x => Json.arr #["exportVar", ofStr var, el x]
